@@ -75,3 +75,12 @@ Fixpoint prefix_b (p s : bytes) : bool :=
   | x :: p', y :: s' => N.eqb x y && prefix_b p' s'
   | _, [] => false
   end.
+
+(* lexicographic order on byte strings *)
+Fixpoint bytes_leb (a b : bytes) : bool :=
+  match a, b with
+  | [], _ => true
+  | _ :: _, [] => false
+  | x :: a', y :: b' => if (x <? y)%N then true else if (y <? x)%N then false else bytes_leb a' b'
+  end.
+
